@@ -1,5 +1,7 @@
 package runtime
 
+var verifZero float64
+
 // VerifC03InLiteral: a Go string placed inside a '...', "..." or `...` JavaScript literal.
 func VerifC03InLiteral() {
 	qi := symChoose(3)
@@ -25,15 +27,31 @@ type verifShape struct {
 	C bool
 }
 
+type verifScore struct {
+	Player  string
+	Average float64
+}
+
 // VerifC03Bare: a Go value in bare position ({{ v }} outside any literal).
 func VerifC03Bare() {
-	shape := symChoose(6)
+	shape := symChoose(7)
 	v := symString("v", symParam("N"))
 	var e string
 	var err error
 	var want verifJSON
 	vv := verifToValidUTF8(v)
 	switch shape {
+	case 6:
+		// a value with a float that JSON cannot represent next to a string: the render may fail
+		// (nothing is emitted), but whatever is emitted is still data only
+		f := []float64{2, verifZero / verifZero, 1 / verifZero}[symChoose(3)] // 2, NaN, +Inf
+		e, err = ScriptContentOutsideStringLiteral(verifScore{Player: v, Average: f})
+		if err != nil {
+			symAssert(f != 2, "bare: only a value JSON cannot represent fails")
+			symCover("bare-unsupported")
+			return
+		}
+		want = verifJSON{Kind: 'o', Keys: []string{"Player", "Average"}, Elts: []verifJSON{{Kind: 's', Str: vv}, {Kind: 'n', Str: "2"}}}
 	case 0:
 		e, err = ScriptContentOutsideStringLiteral(v)
 		want = verifJSON{Kind: 's', Str: vv}
@@ -90,20 +108,41 @@ func verifJSONEqual(a, b verifJSON) bool {
 	return ok
 }
 
-// VerifC03InLiteralJSON: a non-string value inside a literal is the escaped JSON text.
+type verifNamedString string
+
+type verifTextValue struct{ s string }
+
+func (t verifTextValue) MarshalText() ([]byte, error) { return []byte(t.s), nil }
+
+// VerifC03InLiteralJSON: a value that is not a plain string inside a literal is the escaped JSON
+// text: a slice, a named string type, a text marshaller (the last two encode as a JSON string).
 func VerifC03InLiteralJSON() {
 	qi := symChoose(3)
 	q := "'\"`"[qi]
 	v := symString("v", symParam("N"))
-	e, err := ScriptContentInsideStringLiteral([]string{v})
+	var e string
+	var err error
+	kind := symChoose(3)
+	switch kind {
+	case 0:
+		e, err = ScriptContentInsideStringLiteral([]string{v})
+	case 1:
+		e, err = ScriptContentInsideStringLiteral(verifNamedString(v))
+	case 2:
+		e, err = ScriptContentInsideStringLiteral(verifTextValue{v})
+	}
 	symAssert(err == nil, "no error")
 	symCover("inliteral-json")
 	lit := string([]byte{q}) + e + string([]byte{q})
 	val, why := verifJSLiteral(lit, q)
-	symAssert(why == "", "in-literal(json): exactly one literal")
+	symAssert(why == "", "in-literal(json): exactly one literal (not ended early, no interpolation)")
 	if why == "" {
 		got, ok := verifJSONParse(val)
-		symAssert(ok && got.Kind == 'a' && len(got.Elts) == 1 && got.Elts[0].Kind == 's' && got.Elts[0].Str == verifToValidUTF8(v), "in-literal(json): the literal's value is the JSON encoding")
+		if kind == 0 {
+			symAssert(ok && got.Kind == 'a' && len(got.Elts) == 1 && got.Elts[0].Kind == 's' && got.Elts[0].Str == verifToValidUTF8(v), "in-literal(json): the literal's value is the JSON encoding")
+		} else {
+			symAssert(ok && got.Kind == 's' && got.Str == verifToValidUTF8(v), "in-literal(json): the literal's value is the JSON encoding of the string")
+		}
 	}
 	symAssert(verifScriptSafe(e), "in-literal(json): cannot end the script element")
 }
